@@ -21,7 +21,7 @@ META = {
     "assumptions": ["independent 13-entry instruction table written from the documentation; expected order is the operation listing with sub-circuits in place, "
                     "repeated their count; the real back end (qutechopenql 0.12.2) is trusted to write what it was given"],
     "floors": {
-        "quick": {"exports_recorded": 5500, "instructions_compared": 50000, "compiled_by_openql": 450, "name_determinism_checks": 5500, "subcircuit_in_the_middle": 1500,
+        "quick": {"barriers_with_repeated_qubit": 300, "exports_recorded": 5500, "instructions_compared": 50000, "compiled_by_openql": 450, "name_determinism_checks": 5500, "subcircuit_in_the_middle": 1500,
                   "repetition_ge_2": 1500, "unsupported_omitted": 10000, "cross_process_name_checks": 50},
         "thorough": {"exports_recorded": 55000, "compiled_by_openql": 4500},
     },
@@ -45,7 +45,25 @@ def plan(tier: str, seed: int) -> List[Dict[str, Any]]:
 
 def gen_case(rng: random.Random, cls: str) -> Dict[str, Any]:
     prog = gen.gen_program(rng, cls, fields=True, reps=[1, 1, 2, 3], p_sub=0.25, max_depth=2, qubits=5)
+    _repeat_barrier_qubits(rng, prog["circuit"])
     return prog
+
+
+def _count_repeated(circ: Dict[str, Any]) -> int:
+    return sum(_count_repeated(st["sub"]) if "sub" in st else int(bool(st.get("repeated_qubit"))) for st in circ["steps"])
+
+
+def _repeat_barrier_qubits(rng: random.Random, circ: Dict[str, Any]) -> None:
+    """A third of the barriers name one of their qubits twice (e.g. built from overlapping qubit groups): still ONE barrier over each of its
+    qubits once (seeded change C15-r12: operands passed on without de-duplication)."""
+    for st in circ["steps"]:
+        if "sub" in st:
+            _repeat_barrier_qubits(rng, st["sub"])
+        elif st.get("k") == "Barrier" and st.get("q") and rng.random() < 0.33:
+            qs = list(st["q"])
+            qs.insert(rng.randint(0, len(qs)), rng.choice(qs))
+            st["q"] = qs
+            st["repeated_qubit"] = True
 
 
 # ---- recording platform ----------------------------------------------------------------------------------
@@ -273,6 +291,7 @@ def check_program(prog: Dict[str, Any], acc: Acc, flags=None, compile_it: bool =
     with ctx.global_override():
         built = bp.build(prog, ctx)
         circuit = built.top.circuit
+        acc.count("barriers_with_repeated_qubit", _count_repeated(prog["circuit"]))
         kinds_census(built, acc, case)
         want = expected_stream(circuit.circuit_structure, acc, flags)
         if flags.get("middle"):
